@@ -588,6 +588,8 @@ class Translator:
             return r[1] if r else None
         if isinstance(callee, PyFunc):
             return callee.f(*args, **kwargs)
+        if isinstance(callee, SelfObj) and callee.cls is not None and callee.cls.lookup("__call__") is not None:
+            return self.apply(BoundMethod(callee.cls.lookup("__call__"), callee), args, kwargs, n, depth)
         if isinstance(callee, Opaque):
             name = callee.name
             if name.startswith("builtin."):
@@ -835,6 +837,12 @@ class Translator:
             v = axis if axis is not None else (args[pos] if len(args) > pos else default)
             return None if v is None else _pyint(v)
 
+        if last in ("reduce_sum", "sum") and isinstance(a0, (list, tuple)) and a0 and all(is_sym(x) or isinstance(x, (int, float)) for x in a0) and ax(None) in (0, None):
+            # a python list of per-part tensors summed over the list axis
+            tot = sp.Integer(0)
+            for x in a0:
+                tot = tot + _s(x)
+            return tot
         if last in ("reduce_sum", "sum") and is_arr(a0):
             k = ax(None)
             r = np.sum(a0, axis=k)
